@@ -278,6 +278,15 @@ def build_mo(mospec, plain, overlap=None):
             # any alpha/beta split compatible with 0 <= occ_a, occ_b <= 1
             limit = np.minimum(occs, 2 - occs)
             occs_aminusb = np.round(limit * rng.uniform(-1, 1, size=norb), 4)
+            pattern = mospec["mo_seed"] % 4
+            if pattern == 1:
+                occs_aminusb = np.zeros(norb)  # explicit, but no spin polarisation anywhere
+            elif pattern == 2 and np.count_nonzero(limit) >= 2:
+                # open-shell singlet like: non-zero entries that sum to zero
+                idx = np.nonzero(limit)[0][:2]
+                val = float(np.round(min(limit[idx[0]], limit[idx[1]]), 4))
+                occs_aminusb = np.zeros(norb)
+                occs_aminusb[idx[0]], occs_aminusb[idx[1]] = val, -val
         coeffs = rotation()[:, :norb]
         energies = np.sort(rng.normal(size=norb)) if mospec["energies"] else None
         irreps = np.array([f"A{i % 3 + 1}" for i in range(norb)]) if mospec["irreps"] else None
